@@ -1228,12 +1228,12 @@ def _add_tempo_if_unique(position, part, tempo):
     (whether redundant or conflicting)
     """
     point = part.get_point(position)
-    if point is not None:
-        tempos = point.starting_objects.get(score.Tempo, [])
-        if tempos == []:
-            part.add(tempo, position)
-        else:
-            warnings.warn("not adding duplicate or conflicting tempo indication")
+    # (no time point yet at this position means no tempo there either)
+    tempos = point.starting_objects.get(score.Tempo, []) if point is not None else []
+    if len(tempos) == 0:
+        part.add(tempo, position)
+    else:
+        warnings.warn("not adding duplicate or conflicting tempo indication")
 
 
 def _handle_sound(e, position, part):
